@@ -260,7 +260,12 @@ Section SCalls.
                 match sbind_params (sd_params d) args, sd_body d with
                 | Some binds, (_ :: _) as body =>
                     (* parameters (and @arguments) live in a frame of their own around the body *)
-                    let frame := ($"@arguments", flat_map (fun a => map VT a ++ [VT [" "]]) args) :: rev binds in
+                    (* @arguments: the arguments written at the call, or, when none is written, the default values *)
+                    let argv := match args with
+                                | [] => flat_map (fun pd => match snd pd with Some dv => dv ++ [VT [" "]] | None => [] end) (sd_params d)
+                                | _ => flat_map (fun a => map VT a ++ [VT [" "]]) args
+                                end in
+                    let frame := ($"@arguments", argv) :: rev binds in
                     sbind (sem_body_list (sem_call f) media at_ parent (frame :: e) body) (fun '(_, d1, u, c) => SOk (e, d1, u, c))
                 | _, _ => try rest
                 end
